@@ -25,6 +25,7 @@ func init() {
 		EnumRule:    "obligations per rule and construct",
 		Assumptions: []string{"filepath.Walk visits files in lexical order; go/parser returns declarations and doc comments in source order", "that the tool finds every annotation of every tree (parser behaviour) is not decided"},
 		Controls: []Control{
+			{Name: "walk skips directories called bin", File: "kbuild/redirects.go", Old: "\t\tif info.IsDir() {\n\t\t\treturn nil\n\t\t}\n", New: "\t\tif info.Name() == \"bin\" {\n\t\t\treturn filepath.SkipDir\n\t\t}\n\t\tif info.IsDir() {\n\t\t\treturn nil\n\t\t}\n", Expect: "C20.R2"},
 			{Name: "one record shared by the annotations of a function", File: "kbuild/redirects.go", Old: "\t\t\tfor _, comment := range decl.Doc.List {\n", New: "\t\t\tshared := &SymbolRedirect{}\n\t\t\tfor _, comment := range decl.Doc.List {\n", Old2: "\t\t\t\tctx.Redirects = append(ctx.Redirects, &SymbolRedirect{\n\t\t\t\t\tComment:   fset.Position(comment.Pos()).String(),\n\t\t\t\t\tSrcSymbol: from,\n\t\t\t\t\tDstSymbol: name,\n\t\t\t\t})\n", New2: "\t\t\t\tshared.Comment, shared.SrcSymbol, shared.DstSymbol = fset.Position(comment.Pos()).String(), from, name\n\t\t\t\tctx.Redirects = append(ctx.Redirects, shared)\n", Expect: "C20.R3"},
 			{Name: "re-introduce the map range (F6)", File: "kbuild/redirects.go",
 				Old: "\t\t// Visit the declarations in source order so that the\n\t\t// redirect table is the same on every build.\n\t\tfor _, node := range f.Decls {\n", New: "\t\tcmap := ast.NewCommentMap(fset, f, f.Comments)\n\t\tcmap.Filter(f)\n\t\tfor node := range cmap {\n", Expect: "C20.R1"},
